@@ -713,8 +713,9 @@ int main (void)
     { /* the daemon's threads run on their own: wait for what the script has asked for (admission or refusal of every
          added connection, the handler for every request sent, the disposal of every connection whose client has
          gone), then for a quiet period; bounded, so a daemon that never gets there is reported by the oracle */
-      unsigned long seen = ev_counter; int quiet = 0;
-      for (i = 0; i < 1500 && quiet < 20; i++)
+      unsigned long seen = ev_counter; int quiet = 0; struct timespec t0, t1;
+      clock_gettime (CLOCK_MONOTONIC, &t0); t1 = t0;
+      for (i = 0; quiet < 20 && (t1.tv_sec - t0.tv_sec) < 8; i++, clock_gettime (CLOCK_MONOTONIC, &t1))
       {
         int c, pend = 0;
         usleep (2000); drain_clients ();
